@@ -184,4 +184,210 @@ theorem outVal_bound (A B amt fee : Int) (hA : 0 ≤ A) (hB : 0 ≤ B)
     rw [this]; exact hq.2
   · exact hy
 
+/-! ### exact-out, equal weights -/
+
+/-- the amount the equal-weight exact-out path charges, as a pure function of the inputs. -/
+def inVal (A B amtOut fee : Int) : Int :=
+  Dec.ceilInt (Dec.quo (-(A * (P - Dec.quo (B * P) (B * P - amtOut * P)))) (P - fee))
+
+theorem calcIn_equal (p : SwapPool) (amtOut fee inAmt slip : Int)
+    (hw : p.wIn = p.wOut) (hw0 : p.wOut ≠ 0)
+    (h : calcInGivenOut p amtOut fee = .ok (inAmt, slip)) :
+    inAmt = inVal p.effIn p.effOut amtOut fee ∧ 0 < inAmt ∧ fee < P ∧ 0 < p.effOut * P - amtOut * P := by
+  unfold calcInGivenOut at h
+  obtain ⟨post, h1, h⟩ := bind_ok h
+  have e1 := subC_ok h1
+  obtain ⟨tin, h2, h⟩ := bind_ok h
+  rw [hw] at h2
+  have hwP : p.wOut * P ≠ 0 := Int.mul_ne_zero hw0 (by decide)
+  obtain ⟨e2, hpost, _⟩ := solveCFI_equal _ _ _ _ _ hwP h2
+  rw [mul_ofInt_left] at e2
+  simp only at h
+  obtain ⟨rate, _, h⟩ := bind_ok h
+  obtain ⟨ns, _, h⟩ := bind_ok h
+  split at h
+  · cases h
+  · obtain ⟨q, _, h⟩ := bind_ok h
+    obtain ⟨sl, _, h⟩ := bind_ok h
+    split at h
+    · cases h
+    · rename_i hfee
+      obtain ⟨omf, h3, h⟩ := bind_ok h
+      have e3 := subC_ok h3
+      obtain ⟨bf, h4, h⟩ := bind_ok h
+      have e4 := (quoC_ok h4).1
+      obtain ⟨c, h5, h⟩ := bind_ok h
+      have e5 := ceilC_ok h5
+      split at h
+      · cases h
+      · have hres := Except.ok.inj h
+        have e6 : inAmt = c := (congrArg Prod.fst hres).symm
+        rw [e1] at hpost e2
+        refine ⟨?_, by omega, by omega, hpost⟩
+        rw [e6, e5, e4, e3, e2]; rfl
+
+theorem in_core (A B o P F y q1 q2 bf inn D : Int) (hP : 0 < P) (hF : 0 < F) (hA : 0 ≤ A) (hD : 0 < D)
+    (hDdef : D = B - o)
+    (h1 : B * (P * P * P) < (q1 + 1) * (D * P))
+    (h2 : 2 * q1 - P ≤ 2 * (y * P))
+    (h3 : A * (y - P) * (P * P) < (q2 + 1) * F)
+    (h4 : 2 * q2 - P ≤ 2 * (bf * P))
+    (h5 : bf ≤ inn * P) :
+    2 * P * P * (A * o * P) ≤ 2 * P * P * inn * (D * F) + A * P * D * (P + 2) + (P + 2) * (D * F) := by
+  have nFD : 0 ≤ F * D := Int.mul_nonneg (by omega) (by omega)
+  have nAPD : 0 ≤ A * P * D := Int.mul_nonneg (Int.mul_nonneg hA (by omega)) (by omega)
+  have e5 : bf * P ≤ inn * P * P := Int.mul_le_mul_of_nonneg_right h5 (by omega)
+  have s1 : (2 * q2 - P) * (F * D) ≤ 2 * (inn * P * P) * (F * D) :=
+    Int.mul_le_mul_of_nonneg_right (by omega) nFD
+  have s2 : A * (y - P) * (P * P) * (2 * D) ≤ (q2 + 1) * F * (2 * D) :=
+    Int.mul_le_mul_of_nonneg_right (Int.le_of_lt h3) (by omega)
+  have s3 : (2 * q1 - P) * (A * P * D) ≤ 2 * (y * P) * (A * P * D) :=
+    Int.mul_le_mul_of_nonneg_right h2 nAPD
+  have s4 : B * (P * P * P) * (2 * A) ≤ (q1 + 1) * (D * P) * (2 * A) :=
+    Int.mul_le_mul_of_nonneg_right (Int.le_of_lt h1) (by omega)
+  subst hDdef
+  grind
+
+/-- from the scaled bound to "at most one unit below the exact charge". -/
+theorem in_one_unit_core (A P F D inn num : Int) (hP : 0 < P) (hD : 0 < D)
+    (hk : A * P * (P + 2) + (P + 2) * F ≤ 2 * P * P * F)
+    (hb : 2 * P * P * num ≤ 2 * P * P * inn * (D * F) + A * P * D * (P + 2) + (P + 2) * (D * F)) :
+    num ≤ (inn + 1) * (D * F) := by
+  have k : (A * P * (P + 2) + (P + 2) * F) * D ≤ 2 * P * P * F * D :=
+    Int.mul_le_mul_of_nonneg_right hk (by omega)
+  have hPP : 0 < 2 * P * P := Int.mul_pos (by omega) hP
+  have e : num * (2 * P * P) ≤ (inn + 1) * (D * F) * (2 * P * P) := by grind
+  exact Int.le_of_mul_le_mul_right e hPP
+
+/-- the bound the 18-digit `Quo` roundings allow, for the pure in-amount function:
+`in ≥ A·o/((B−o)(1−fee)) − (A/2 + A/10¹⁸)/(1−fee)/10¹⁸ − 1/2 − 1/10¹⁸`, scaled to integers. -/
+theorem inVal_bound (A B o fee : Int) (hA : 0 ≤ A) (ho : 0 ≤ o) (hfee : fee < P)
+    (hpost : 0 < B * P - o * P) :
+    2 * P * P * (A * o * P) ≤ 2 * P * P * inVal A B o fee * ((B - o) * (P - fee))
+      + A * P * (B - o) * (P + 2) + (P + 2) * ((B - o) * (P - fee)) := by
+  have hP := P_pos
+  have hD : 0 < B - o := by
+    have : B * P - o * P = (B - o) * P := by rw [Int.sub_mul]
+    rw [this] at hpost
+    apply Classical.byContradiction; intro hc
+    have := Int.mul_nonpos_of_nonpos_of_nonneg (show B - o ≤ 0 by omega) (Int.le_of_lt hP)
+    omega
+  have hB : 0 ≤ B := by omega
+  have hDP : B * P - o * P = (B - o) * P := by rw [Int.sub_mul]
+  -- first Quo
+  have hq1 := tdiv_bounds (B * P * P * P) (B * P - o * P)
+    (Int.mul_nonneg (Int.mul_nonneg (Int.mul_nonneg hB (by omega)) (by omega)) (by omega)) hpost
+  have hy := (round2_bounds ((B * P * P * P).tdiv (B * P - o * P))).1
+  -- y ≥ P, hence the invariant input is non-negative
+  have hyP : P ≤ Dec.quo (B * P) (B * P - o * P) := by
+    unfold Dec.quo
+    have hq1' := hq1.2
+    rw [hDP] at hq1' hy ⊢
+    have hge : P * P * ((B - o) * P) ≤ B * P * P * P := by
+      have : (B - o) * (P * P * P) ≤ B * (P * P * P) :=
+        Int.mul_le_mul_of_nonneg_right (by omega) (Int.mul_nonneg (Int.mul_nonneg (by omega) (by omega)) (by omega))
+      grind
+    have hlt : P * P * ((B - o) * P) < ((B * P * P * P).tdiv ((B - o) * P) + 1) * ((B - o) * P) := by omega
+    have hpos : 0 < (B - o) * P := Int.mul_pos hD hP
+    have hqq : P * P < (B * P * P * P).tdiv ((B - o) * P) + 1 := Int.lt_of_mul_lt_mul_right hlt (by omega)
+    generalize (B * P * P * P).tdiv ((B - o) * P) = q at hqq hy ⊢
+    generalize round2 q = r at hy ⊢
+    have hPP : P * P = 1000000000000000000000000000000000000 := by decide
+    rw [hPP] at hqq
+    rw [P_eq] at hy ⊢
+    omega
+  have htin : 0 ≤ -(A * (P - Dec.quo (B * P) (B * P - o * P))) * P * P := by
+    have : 0 ≤ A * (Dec.quo (B * P) (B * P - o * P) - P) := Int.mul_nonneg hA (by omega)
+    have e : -(A * (P - Dec.quo (B * P) (B * P - o * P))) = A * (Dec.quo (B * P) (B * P - o * P) - P) := by grind
+    rw [e]
+    exact Int.mul_nonneg (Int.mul_nonneg this (by omega)) (by omega)
+  have hq2 := tdiv_bounds _ (P - fee) htin (by omega)
+  have hb := (round2_bounds ((-(A * (P - Dec.quo (B * P) (B * P - o * P))) * P * P).tdiv (P - fee))).1
+  have hc := ceilInt_ge (Dec.quo (-(A * (P - Dec.quo (B * P) (B * P - o * P)))) (P - fee))
+  refine in_core A B o P (P - fee) (Dec.quo (B * P) (B * P - o * P))
+    ((B * P * P * P).tdiv (B * P - o * P))
+    ((-(A * (P - Dec.quo (B * P) (B * P - o * P))) * P * P).tdiv (P - fee))
+    (Dec.quo (-(A * (P - Dec.quo (B * P) (B * P - o * P)))) (P - fee))
+    (inVal A B o fee) (B - o) hP (by omega) hA hD rfl ?_ hy ?_ hb hc
+  · have h := hq1.2
+    rw [hDP] at h
+    have : B * (P * P * P) = B * P * P * P := by simp [Int.mul_assoc]
+    rw [this]; rw [hDP]; exact h
+  · have h := hq2.2
+    have e : A * (Dec.quo (B * P) (B * P - o * P) - P) * (P * P)
+        = -(A * (P - Dec.quo (B * P) (B * P - o * P))) * P * P := by grind
+    rw [e]; exact h
+
+/-! ### any weights: structure of the exact-in path, and the `PowSpec` hypothesis -/
+
+theorem solveCFI_general (xb xa wx yb wy v : Int) (h : solveCFI xb xa wx yb wy = .ok v) :
+    wy ≠ 0 ∧ 0 < xa ∧ ∃ pw, pow (Dec.quo xb xa) (Dec.quo wx wy) = .ok pw ∧ v = Dec.mul yb (P - pw) := by
+  unfold solveCFI at h
+  split at h
+  · cases h
+  · rename_i hwy
+    obtain ⟨wr, hwr, h⟩ := bind_ok h
+    have ewr := (quoC_ok hwr).1
+    split at h
+    · cases h
+    · obtain ⟨y, hy, h⟩ := bind_ok h
+      have ey := (quoC_ok hy).1
+      obtain ⟨pw, hpw, h⟩ := bind_ok h
+      obtain ⟨par, hpar, h⟩ := bind_ok h
+      have e2 := subC_ok hpar
+      have e3 := mulC_ok h
+      rw [ey, ewr] at hpw
+      exact ⟨hwy, by omega, pw, hpw, by rw [e3, e2]⟩
+
+theorem calcOut_general (p : SwapPool) (amt fee out slip : Int)
+    (h : calcOutGivenIn p amt fee = .ok (out, slip)) :
+    0 < out ∧ 0 < p.effIn * P + amt * (P - fee) ∧
+    ∃ pw, pow (Dec.quo (p.effIn * P) (p.effIn * P + amt * (P - fee))) (Dec.quo (p.wIn * P) (p.wOut * P)) = .ok pw
+      ∧ out = (p.effOut * (P - pw)).tdiv P := by
+  unfold calcOutGivenIn at h
+  obtain ⟨omf, h1, h⟩ := bind_ok h
+  have e1 := subC_ok h1
+  obtain ⟨iaf, h2, h⟩ := bind_ok h
+  have e2 := mulC_ok h2
+  rw [mul_ofInt_left, e1] at e2
+  obtain ⟨post, h3, h⟩ := bind_ok h
+  have e3 := addC_ok h3
+  obtain ⟨tok, h4, h⟩ := bind_ok h
+  obtain ⟨_, hpost, pw, hpw, e4⟩ := solveCFI_general _ _ _ _ _ _ h4
+  rw [mul_ofInt_left] at e4
+  split at h
+  · cases h
+  · obtain ⟨rate, _, h⟩ := bind_ok h
+    obtain ⟨ns, _, h⟩ := bind_ok h
+    split at h
+    · cases h
+    · obtain ⟨q, _, h⟩ := bind_ok h
+      obtain ⟨sl, _, h⟩ := bind_ok h
+      simp only at h
+      split at h
+      · cases h
+      · have := Except.ok.inj h
+        have e5 : out = tok.tdiv P := (congrArg Prod.fst this).symm
+        rw [e3, e2] at hpost hpw
+        exact ⟨by omega, hpost, pw, hpw, by rw [e5, e4]⟩
+
+/-- a ratio of a non-negative numerator to a larger denominator is at most 1 after the `Quo` rounding. -/
+theorem quo_le_one (a b : Int) (ha : 0 ≤ a) (hab : a ≤ b) (hb : 0 < b) : Dec.quo a b ≤ P := by
+  unfold Dec.quo
+  have hP := P_pos
+  have hnn : 0 ≤ a * P * P := Int.mul_nonneg (Int.mul_nonneg ha (by omega)) (by omega)
+  have hq := (tdiv_bounds (a * P * P) b hnn hb).1
+  have hle : a * P * P ≤ P * P * b := by
+    have : a * (P * P) ≤ b * (P * P) := Int.mul_le_mul_of_nonneg_right hab (Int.mul_nonneg (by omega) (by omega))
+    grind
+  have hq2 : (a * P * P).tdiv b * b ≤ P * P * b := by omega
+  have hq3 : (a * P * P).tdiv b ≤ P * P := Int.le_of_mul_le_mul_right hq2 hb
+  have hr := (round2_bounds ((a * P * P).tdiv b)).2
+  generalize (a * P * P).tdiv b = q at hq3 hr ⊢
+  generalize round2 q = r at hr ⊢
+  have hPP : P * P = 1000000000000000000000000000000000000 := by decide
+  rw [hPP] at hq3
+  rw [P_eq] at hr ⊢
+  omega
+
 end Elys.Amm
